@@ -347,7 +347,9 @@ func c36ServiceLevels(c *kit.Ctx, nd *node.Node) {
 	e := &c36Env{c: c, nd: nd, net: &c36Net{}, r: c.Rand("c36-levels")}
 	// sanity: the model's level names are the ones the configuration knows
 	for i, n := range c36Levels {
-		if config.RPCServiceLevel(i).String() != n || config.RPCServiceLevelFromString(n) != config.RPCServiceLevel(i) {
+		// (how the configured NAME is parsed is not a precondition: the sweep below configures every
+		// level by its name and judges what the server then serves)
+		if config.RPCServiceLevel(i).String() != n {
 			c.Inconclusive("service level names changed: index %d is %q, model has %q", i, config.RPCServiceLevel(i).String(), n)
 			return
 		}
